@@ -5,6 +5,7 @@ package main
 
 import (
 	"bytes"
+	"crypto/sha256"
 	"encoding/base64"
 	"encoding/json"
 	"fmt"
@@ -224,6 +225,8 @@ func (p *pool) run(kind string, sc Scenario, tr *hx.Trace) {
 		packed []byte
 		perr   error
 	)
+
+	sparty.Rec.Wraps = nil
 
 	func() {
 		defer func() {
@@ -461,6 +464,11 @@ func (p *pool) run(kind string, sc Scenario, tr *hx.Trace) {
 		rn = append(rn, r.Name)
 	}
 
+	wraps := "None"
+	if perr == nil && !legacy {
+		wraps = p.coqWraps(packed, sc.Style, auth, sender, rcpts, sparty.Rec.Wraps)
+	}
+
 	kts := "[]"
 
 	if len(sc.RKT) == len(sc.Rcpts) && !legacy {
@@ -477,9 +485,9 @@ func (p *pool) run(kind string, sc Scenario, tr *hx.Trace) {
 		refs = p.coqRefs(sc.Style, auth, sender, rcpts)
 	}
 
-	rec.Coq = fmt.Sprintf("{| c_cfg := mkcfg %s %s %s %s; c_viapk := %s; c_spar := %s; c_payload := %d; c_sender := %d; c_rcpts := %s; c_refs := %s; c_form := %d; c_history := %s; c_kts := %s; c_packed := %s; c_unp := %s |}",
+	rec.Coq = fmt.Sprintf("{| c_cfg := mkcfg %s %s %s %s; c_viapk := %s; c_spar := %s; c_payload := %d; c_sender := %d; c_rcpts := %s; c_refs := %s; c_form := %d; c_history := %s; c_kts := %s; c_prim := None; c_wraps := %s; c_packed := %s; c_unp := %s |}",
 		coqPacker(sc.Packer), kt, sc.Enc, coqStyle(mstyle), hx.CoqBool(sc.Via == "packager"), hx.CoqNList(p.partyKeys(sender.Owner)), pid, senderN,
-		hx.CoqNList(rn), refs, map[string]int{"": 0, "quoted": 1, "quoted-pad": 2}[sc.Form], hx.CoqBool(sc.History), kts,
+		hx.CoqNList(rn), refs, map[string]int{"": 0, "quoted": 1, "quoted-pad": 2}[sc.Form], hx.CoqBool(sc.History), kts, wraps,
 		hx.CoqBool(perr == nil), hx.CoqList(coqUnp))
 	rec.Observed = obs
 
@@ -583,6 +591,36 @@ func (p *pool) prime(sc Scenario, sender *env.Key, rcpts []*env.Key) {
 			_, _ = pp.Unpack(packed)
 		}
 	}
+}
+
+// coqWraps abstracts the recorded WrapKey calls of one pack (see C01/Corr.v wobs).
+func (p *pool) coqWraps(packed []byte, style string, auth bool, sender *env.Key, rcpts []*env.Key, calls []env.WrapCall) string {
+	raw, err := env.ParseRawJWE(packed)
+	if err != nil {
+		return "None"
+	}
+
+	tag, _ := base64.RawURLEncoding.DecodeString(raw.Tag)
+
+	var kids []string
+	for _, r := range rcpts {
+		kids = append(kids, r.Ref(style))
+	}
+
+	sort.Strings(kids)
+	apvWant := sha256.Sum256([]byte(strings.Join(kids, ".")))
+	skid := []byte(sender.Ref(style))
+
+	var items []string
+
+	for _, c := range calls {
+		items = append(items, fmt.Sprintf("Build_wobs %s %s %s %s %s %s", hx.CoqBool(strings.Contains(c.Alg, "1PU")),
+			hx.CoqBool(auth && bytes.Equal(c.APU, skid)), hx.CoqBool(bytes.Equal(c.APV, apvWant[:])),
+			hx.CoqBool(len(c.Tag) > 0 && bytes.Equal(c.Tag, tag)), hx.CoqBool(c.HasSender),
+			hx.CoqBool(bytes.Equal(c.EPKX, calls[0].EPKX))))
+	}
+
+	return "(Some " + hx.CoqList(items) + ")"
 }
 
 // --- key references as strings of atoms (coq/C01/KeyRef.v): '.' = 0, '#' = 1, every other token an atom >= 1000 ---
@@ -757,6 +795,16 @@ func main() {
 		}
 
 		_ = json.Unmarshal(b, &c)
+
+		var pcs struct {
+			Case PrimCase `json:"case"`
+		}
+
+		if json.Unmarshal(b, &pcs) == nil && pcs.Case.Prim != "" {
+			p.runPrim(pcs.Case, tr)
+			return
+		}
+
 		p.run("replay", c.Case, tr)
 
 		return
@@ -779,6 +827,9 @@ func main() {
 
 	i := uint64(0)
 	next := func() *hx.Rng { i++; return rng.Fork(i) }
+
+	// primitive contracts: the real key wrap / AEAD against the term algebra's equations
+	p.genPrim(tr, kts)
 
 	// systematic: packer x key type x enc x style x n, payload class rotating
 	for _, packer := range []string{"jwe-auth", "jwe-anon"} {
